@@ -58,9 +58,24 @@ func genBeta(depth bool) *rapid.Generator[int] {
 	)
 }
 
+// genElem draws the element kind of a tree into c: about half of the cases
+// keep the original element type, the others are spread over the kinds
+// stree.New admits; for the kinds with a natural order, half of the cases use
+// a comparison that runs against it.
+func genElem(t *rapid.T, c *TreeCase) {
+	if rapid.Bool().Draw(t, "elemDefault") {
+		return
+	}
+	c.Elem = rapid.SampledFrom(treeKinds).Draw(t, "elem")
+	if c.Elem == "int" || c.Elem == "string" {
+		c.Rev = rapid.Bool().Draw(t, "rev")
+	}
+}
+
 func genTreeCase(depth bool) func(t *rapid.T) TreeCase {
 	return func(t *rapid.T) TreeCase {
 		c := TreeCase{Beta: genBeta(depth).Draw(t, "beta"), Mag: rapid.SampledFrom([]int{0, 0, 1, 1, 2}).Draw(t, "mag")}
+		genElem(t, &c)
 		if depth {
 			switch rapid.IntRange(0, 3).Draw(t, "initKind") {
 			case 0:
@@ -119,6 +134,7 @@ func runC01(c TreeCase, o *vk.Obs) string {
 	o.ClassIf(c.Beta == 1000, "beta=1000")
 	o.ClassIf(len(c.Init) > 0, "bulk_init")
 	o.ClassIf(c.Mag%3 != 0, "comparator_returns_magnitudes")
+	classElem(o, c.Elem, c.Rev)
 	return ""
 }
 
@@ -149,6 +165,7 @@ func runC02(c TreeCase, o *vk.Obs) string {
 	o.ClassIf(r.maxHeight >= 8, "height>=8")
 	o.ClassIf(len(c.Init) > 47, "bulk_init_large")
 	o.ClassIf(c.Beta >= 900, "beta>=900")
+	classElem(o, c.Elem, c.Rev)
 	for _, op := range c.Ops {
 		if op.Kind == "ascL" || op.Kind == "descL" {
 			o.Class("long_monotone_run(300..1700)")
@@ -181,9 +198,16 @@ func TestC02NewHeights(t *testing.T) {
 	slot := h.Slot()
 	tl := vk.NewTally()
 	for n := 1; n <= maxN && !h.Failed(); n++ {
-		for _, beta := range []int{0, 250, 999} {
+		// every n with the original element type at the three betas, and once
+		// more with one of the other element kinds (cycling with n)
+		for bi, beta := range []int{0, 250, 999, 0} {
 			// keys in a scrambled order (deterministic)
 			c := TreeCase{Beta: beta}
+			if bi == 3 {
+				c.Beta = []int{0, 250, 999}[n/len(treeKinds)%3]
+				c.Elem = treeKinds[n%len(treeKinds)]
+				c.Rev = (c.Elem == "int" || c.Elem == "string") && n/(3*len(treeKinds))%2 == 1
+			}
 			for i := 0; i < n; i++ {
 				c.Init = append(c.Init, (i*7919+n)%n)
 			}
@@ -195,6 +219,11 @@ func TestC02NewHeights(t *testing.T) {
 				t.Fatalf("VK-VIOLATION property=C02 leg=newheight replay=%s\n%s", p, msg)
 			}
 			tl.Evals++
+			el := c.Elem
+			if el == "" {
+				el = "default"
+			}
+			tl.Classes["elem="+el]++
 			if n&(n-1) == 0 || (n+1)&n == 0 {
 				tl.NT++ // sizes at a power of two (or one below) are where an off-by-one shows
 			}
